@@ -751,6 +751,9 @@ class Models(object):
         np.ogrid = _OGrid()
         np.r_ = _RClass()
         np.newaxis = None
+        np.True_, np.False_ = True, False
+        np.typecodes = {'Character': 'c', 'Integer': 'bhilqnp', 'UnsignedInteger': 'BHILQNP', 'Float': 'efdg', 'Complex': 'FDG',
+                        'AllInteger': 'bBhHiIlLqQnNpP', 'AllFloat': 'efdgFDG', 'Datetime': 'Mm', 'All': '?bhilqnpBHILQNPefdgFDGSUVOMm'}
         np.linalg = Namespace('linalg', pinv=self._hooked('linalg.pinv', self.pinv),
                               inv=self._hooked('linalg.inv', self.pinv),
                               norm=self._hooked('linalg.norm', self.norm),
